@@ -342,6 +342,41 @@ pub fn run(ctx: &'static Ctx) {
     }
     ctx.engine("E3.named-objects", json!({"objects": named, "constructors": 12}));
     ctx.st(n.load(Ordering::Relaxed) + m + bad + named);
+    // ---- every name there is (the value principle): all 27 x 37^3 = 1 367 631 four-character segments, each as a
+    // relative and a rooted single-segment path and as the first, last and middle segment of longer paths: a rule keyed
+    // to one particular name (a predefined ACPI name, say) is met at that name
+    {
+        let lead: Vec<u8> = (b'A'..=b'Z').chain([b'_']).collect();
+        let rest: Vec<u8> = (b'A'..=b'Z').chain([b'_']).chain(b'0'..=b'9').collect();
+        let n = AtomicU64::new(0);
+        let lean = |rooted: bool, segs: &[[u8; 4]]| {
+            let s = path_string(rooted, segs);
+            let mut want = vec![];
+            name_encode(rooted, segs, &mut want);
+            match catch(|| ser(&Path::new(&s))) {
+                Ok(b) if b == want => {}
+                _ => check_path(ctx, rooted, segs, "every-name sweep"),
+            }
+        };
+        lead.par_iter().for_each(|a| {
+            for b in &rest {
+                for c in &rest {
+                    for d in &rest {
+                        let sg = [*a, *b, *c, *d];
+                        lean(false, &[sg]);
+                        lean(true, &[sg]);
+                        lean(false, &[sg, seg(1)]);
+                        lean(true, &[seg(0), sg]);
+                        lean(false, &[seg(0), sg, seg(2)]);
+                    }
+                }
+            }
+            n.fetch_add(5 * 37 * 37 * 37, Ordering::Relaxed);
+        });
+        ctx.tr(n.load(Ordering::Relaxed));
+        ctx.st(n.load(Ordering::Relaxed));
+        ctx.engine("E3.every-name", json!({"segments": 27 * 37 * 37 * 37, "paths": n.load(Ordering::Relaxed), "forms": ["relative single", "rooted single", "first of two", "last of two (rooted)", "middle of three"]}));
+    }
     ctx.force_sample(json!({"path": "\\_SB_.PCI0.LNKA", "expected": "5c 2f 03 5f53425f 50434930 4c4e4b41"}));
     ctx.force_sample(json!({"path": "ABCD.EFG", "expected": "refused"}));
 }
